@@ -18,12 +18,18 @@ def P(qr, qw, tr, tw, **kw):
 PLAN = {
     "C01": P(6000, 75, 200000, 900),
     "C02": P(5000, 75, 150000, 900),
+    "C07": P(1500, 100, 30000, 1200, chunk=150),
     "C06": P(1500, 100, 40000, 1200, chunk=150),
     "C04": P(1500, 100, 40000, 1200, chunk=150),
     "C03": P(2000, 90, 60000, 900),
 }
 
 LEVELS = {
+    "C07": {"level": "exploration", "rule": RULE,
+            "text": "seeded exploration of metadata populations (1-5 repositories with prefix-related names, 0..3000 bundles incl. leftovers of interrupted uploads, labels, diamonds with 0..150 splits whose generations hold 0..60 index files, abandoned generations) listed through List*/List*Apply with page sizes 1..2048, list concurrency 1..32, short pages and (separately) transient store errors; every listing is compared with the model: each object once, nothing foreign, bundles ascending by id, diamonds and splits by start time",
+            "note": "objects are seeded with the real yaml.Marshal(model.*) at the real model.GetArchivePath* keys; repos/labels order is not asserted (usage docs state none); trusts simstore's listing contract (lexicographic, exact prefix, token = next key)",
+            "components": {"real": ["pkg/core keys/list for repos, bundles, labels, diamonds, splits", "pkg/model paths"], "stub": STUB},
+            "assumptions": ["diamonds/splits are created at least one second apart so that id order and start-time order agree", "3000-bundle populations only in the thorough tier"]},
     "C06": {"level": "fault_enumeration", "rule": RULE + "; crash points are store writes of the target operation, each tried with the crash before and after the write lands",
             "text": "crash-point fault injection: inside histories of 0..3 committed bundles and labels, a target upload / label set / diamond commit is killed at a tape-chosen store write (before or after it lands), optionally next to an unharmed concurrent uploader; a fresh observer then lists, resolves latest, lists labels and downloads every visible bundle, and a fresh client retries. The enumerated scenario walks every write of one small upload x {before, after}. Per-event invariant: nothing under bundles/{repo}/{id}/ is written once its bundle.yaml exists",
             "note": "a crashed client's later calls fail with no effect (DESIGN §2); only what landed in simstore survives; trusts simstore",
